@@ -8,7 +8,18 @@ The same creations are also run with 2, 3 and 4 workers on the controllable pool
 reader stays in the calling process, so the proxies keep logging; the model's requests do not depend on the
 number of workers (Model/ChunksBuf.v:pool_steps, C18_pool_requests_worker_independent), and the tasks of every
 Pool.map call are compared with np.array_split of the requested slice (c18_pool_case).
+
+Reader history (history_cases): the public reader objects (DataFrameReader, HDFReader, FitsReader, ParquetReader through
+new_filereader, RandomReader) are first USED - a peek next(iter(r)), next() without iter(), islice / zip previews, an
+aborted for-loop, nested loops, a preview through the progress display, get_probe, complete passes, an earlier
+write_patches - and then read completely: by a for-loop, by yaw.catalog.catalog.write_patches, or by
+create_patch_centers followed by write_patches.  The requests observed during every operation are compared with the
+reader state machine of Model/ChunksBuf.v (rd_trace: iter() rewinds, next() advances; c18_hist_case, c18_pq_hist_case,
+c18_hist_sizes_case); every complete pass must request every record exactly once from the start whatever came before
+(C18_history_pass_requests / C18_history_every_pass; `rewind only when exhausted` is C18_lazy_rewind_refuted).
 """
+import io
+import itertools
 import os
 import shutil
 
@@ -20,13 +31,17 @@ from sim import pool as simpool
 
 ALLOWED_AXIOMS = []
 TRUSTED = [
-    "logging proxies (harness side) around the data frame, h5py.File datasets and pyarrow ParquetFile; FITS access is not logged (astropy memory-maps the table; library behaviour)",
+    "logging proxies (harness side) around the data frame, h5py.File datasets and pyarrow ParquetFile; FITS access is not logged in the Catalog.from_file cases (astropy memory-maps the table; library behaviour); in the reader-history cases a proxy around astropy's HDU list logs the row slices taken from a column (data[col][a:b]), not what astropy reads for data[col]",
     "simulated multiprocessing (harness/sim/pool.py) for the runs with 2-4 workers: Pool.map executes the tasks of one chunk in the calling process in a harness-chosen order, the writer process runs at join(); the sizes of the tasks of every Pool.map call are logged by a subclass of the simulated pool",
 ]
-ASSUMPTIONS = ["a new pass is recognised by a request that starts again at row 0"]
+ASSUMPTIONS = ["a new pass is recognised by a request that starts again at row 0 (Catalog.from_* cases; in the reader-history "
+               "cases the harness drives the operations itself and cuts the request log between them)"]
 RULE = ("cases = (source, n, cs, patch mode incl. generated centres = 2 passes, workers 1 | 2-4 on the simulated pool, "
         "route by which the worker count is given); distinct by that tuple; "
-        "non-trivial when n > cs (more than one request per pass)")
+        "non-trivial when n > cs (more than one request per pass); "
+        "reader-history cases = (source, n, cs, history of operations on the reader object, final pass: for-loop | "
+        "write_patches | create_patch_centers + write_patches, workers); non-trivial when some complete pass starts "
+        "from a partially consumed reader")
 HEADER = "From Verif Require Import Prelude Chunks ChunksBuf Writer.\nOpen Scope nat_scope.\n"
 
 
@@ -260,6 +275,466 @@ def split_passes(log, n):
             passes.append(cur)
         cur.append((a, b))
     return passes
+
+
+# ---------------------------------------------------------------------------------------------------------------
+# reader history
+# ---------------------------------------------------------------------------------------------------------------
+class ProxyRec:
+    """astropy FITS_rec: len() and column access; the row slices taken from the first column are logged"""
+
+    def __init__(self, rec, log, first):
+        self.rec, self.log, self.first = rec, log, first
+
+    def __len__(self):
+        return len(self.rec)
+
+    def __getitem__(self, name):
+        if isinstance(name, str):
+            return ProxyDataset(self.rec[name], self.log if name == self.first else [])
+        self.log.append(("other", repr(name), None))
+        return self.rec[name]
+
+    def __getattr__(self, name):
+        return getattr(self.rec, name)
+
+
+class ProxyHDU:
+    def __init__(self, hdu, log, first):
+        self.hdu, self.log, self.first = hdu, log, first
+
+    @property
+    def data(self):
+        return ProxyRec(self.hdu.data, self.log, self.first)
+
+    def __getattr__(self, name):
+        return getattr(self.hdu, name)
+
+
+class ProxyHDUList:
+    def __init__(self, f, log, first):
+        self.f, self.log, self.first = f, log, first
+
+    def __getitem__(self, i):
+        return ProxyHDU(self.f[i], self.log, self.first)
+
+    def close(self):
+        self.f.close()
+
+    def __getattr__(self, name):
+        return getattr(self.f, name)
+
+
+HIST_SOURCES = ("df", "hdf5", "fits", "parquet", "random")
+HIST_CENTERS = [[15.0, 0.0], [30.0, 3.0]]
+
+
+def hist_columns(n):
+    """coordinates in radians (degrees=False: stored bit for bit), distinct right ascensions = row identity"""
+    ra = np.deg2rad(np.asarray([10.0 + (i * 37 % 101) / 4.0 + (i // 101) / 64.0 for i in range(n)]))
+    dec = np.deg2rad(np.asarray([-5.0 + (i * 53 % 89) / 8.0 for i in range(n)]))
+    return {"ra": ra, "dec": dec, "pid": np.asarray([i % 2 for i in range(n)], dtype="i8")}
+
+
+def hist_core():
+    """histories every source goes through in every run (the last two are the controls without a partial state)"""
+    return [
+        [("peek",)],
+        [("abort", 0)],
+        [("abort", 1)],
+        [("islice", 2)],
+        [("zip", 1)],
+        [("probe", 3), ("peek",)],
+        [("pass",), ("peek",)],
+        [("nested",)],
+        [("peek",), ("next", 1)],
+        [("next", 1)],
+        [("indicator", 1)],
+        [("iter",), ("iter",), ("next", 2), ("len",), ("iter",), ("next", 1)],
+        [("pass",)],
+        [],
+    ]
+
+
+def hist_random(rng, nchunks, src):
+    ops = []
+    for _ in range(rng.choice([1, 1, 2, 2, 3, 4, 5])):
+        kind = rng.choice(["peek", "next", "next", "iter", "islice", "zip", "abort", "abort", "pass", "probe", "nested",
+                           "indicator", "len"] + (["write", "create"] if src in ("df", "random") else []))
+        j = rng.randrange(0, nchunks + 2)
+        if kind in ("peek", "iter", "pass", "nested", "len", "write", "create"):
+            ops.append((kind,))
+        elif kind == "indicator":
+            ops.append((kind, max(1, j)))
+        elif kind == "probe":
+            ops.append((kind, rng.randrange(1, 6)))
+        else:
+            ops.append((kind, j))
+    return ops
+
+
+def hist_partial_pass(n, cs, prims):
+    """does some complete pass start from a partially consumed reader (0 < offset < n)?  statistics only"""
+    off, hit = 0, False
+    for p in prims:
+        op = p["op"]
+        if op == "RdIter":
+            off = 0
+        elif op == "RdPass":
+            hit = hit or 0 < off < n
+            off = -(-n // cs) * cs
+        else:
+            for _ in range(op[1]):
+                if off < n:
+                    off += cs
+    return hit
+
+
+def rd_ops_term(prims):
+    return "[%s]" % "; ".join(p["op"] if isinstance(p["op"], str) else "RdNext %d" % p["op"][1] for p in prims)
+
+
+def history_cases(ctx, readers, terms, metas, idx):
+    from yaw.catalog.catalog import create_patch_centers, write_patches
+    from yaw.randoms import BoxRandoms
+    from yaw.utils.logging import Indicator
+    import h5py
+    import pyarrow as pa
+    from astropy.io import fits as afits
+
+    rng = ctx.rng
+    centers = impl.AngularCoordinates(np.deg2rad(HIST_CENTERS))
+
+    class LoggedBox(BoxRandoms):
+        sizes = None
+
+        def __call__(self, probe_size):
+            self.sizes.append(int(probe_size))
+            return super().__call__(probe_size)
+
+    def shape(cs, big=True):
+        """input lengths around the chunk boundaries, beyond two chunks unless `big` is off"""
+        if big:
+            return rng.choice([2 * cs + 1, 3 * cs, 3 * cs + 1, 4 * cs - 1 if cs > 1 else 5, 5 * cs + 2])
+        return rng.choice([max(1, cs - 1), cs, cs + 1, 2 * cs])
+
+    plan = []
+    terminals = ["write-centers", "write-name", "create", "direct"]
+    k = 0
+    for src in HIST_SOURCES:
+        for hist in hist_core():
+            cs = rng.choice([1, 2, 3, 4, 5, 7])
+            plan.append((src, shape(cs), cs, hist, terminals[k % 4], 0))
+            k += 1
+    for _ in range(ctx.n(45, 500)):
+        src = rng.choice(HIST_SOURCES)
+        cs = rng.choice([1, 2, 3, 4, 5, 7, 9])
+        n = shape(cs, big=rng.random() < 0.8)
+        workers = rng.choice([0, 0, 0, 2, 3])
+        plan.append((src, n, cs, hist_random(rng, -(-n // cs), src), rng.choice(terminals), workers))
+
+    for (src, n, cs, hist, terminal, workers) in plan:
+        if src == "random":
+            n = max(n, 24)                       # a probe of >= 20 generated points for create_patch_centers
+            if terminal == "write-name":
+                terminal = "write-centers"       # generated points carry no patch index
+        elif terminal == "create" or any(o[0] == "create" for o in hist):
+            n = max(n, 4)
+        if terminal == "write-centers" or any(o[0] == "write" for o in hist):
+            n = max(n, 3)                        # both given centres attract a record (rows 0 and 2)
+        name_mode = terminal == "write-name"
+        cols = hist_columns(n)
+        rowid = {float(v): i for i, v in enumerate(cols["ra"])}
+        colnames = dict(ra_name="ra", dec_name="dec", patch_name="pid" if name_mode else None, chunksize=cs, degrees=False)
+        log, groups, path, pseed = [], None, None, rng.randrange(10 ** 6)
+        order = rng.choice(["random", "reverse", "identity"])
+        spec = dict(history=True, src=src, n=n, cs=cs, ops=[list(o) for o in hist], final=terminal, workers=workers,
+                    order=order, pool_seed=pseed)
+        # ---- the reader object
+        if src == "df":
+            rd = readers.DataFrameReader(ProxyFrame(impl.make_df(cols), log), **colnames)
+        elif src == "hdf5":
+            path = os.path.join(ctx.workdir, "hist.hdf5")
+            with h5py.File(path, "w") as f:
+                for kk, v in cols.items():
+                    f.create_dataset(kk, data=v)
+            orig = readers.h5py
+
+            class _H5:
+                @staticmethod
+                def File(p, mode="r"):
+                    return ProxyH5(orig.File(p, mode=mode), log, "ra")
+            readers.h5py = _H5
+            try:
+                rd = readers.new_filereader(path, **colnames)
+            finally:
+                readers.h5py = orig
+        elif src == "fits":
+            path = os.path.join(ctx.workdir, "hist.fits")
+            afits.BinTableHDU.from_columns([afits.Column(name="ra", format="D", array=cols["ra"]),
+                                            afits.Column(name="dec", format="D", array=cols["dec"]),
+                                            afits.Column(name="pid", format="K", array=cols["pid"])]).writeto(path, overwrite=True)
+            orig = readers.fits
+
+            class _Fits:
+                @staticmethod
+                def open(p, *a, **kw):
+                    return ProxyHDUList(orig.open(p, *a, **kw), log, "ra")
+            readers.fits = _Fits
+            try:
+                rd = readers.new_filereader(path, **colnames)
+            finally:
+                readers.fits = orig
+        elif src == "parquet":
+            path = os.path.join(ctx.workdir, "hist.pqt")
+            table = pa.table(cols)
+            if rng.random() < 0.6:
+                rgs = rng.choice([1, max(1, cs - 1), cs, cs + 1, 2 * cs + 1, rng.randrange(1, 12)])
+                groups = write_parquet(path, table, rgs, None)
+            else:
+                g, left = [], n
+                while left:
+                    g.append(min(left, rng.randrange(1, 2 * cs + 3)))
+                    left -= g[-1]
+                groups = write_parquet(path, table, 0, g)
+            spec["groups"] = groups
+            with parquet_logged(readers, log):
+                rd = readers.new_filereader(path, **colnames)
+        else:
+            gen = LoggedBox(10.0, 35.0, -5.0, 6.0, seed=pseed)
+            gen.sizes = log
+            rd = readers.RandomReader(gen, n, cs)
+        is_rows = src in ("df", "hdf5", "fits")
+        mark = [0]
+        prims, probes, state = [], [], dict(odd=[], stored_ok=True, refused=0, pools=0)
+
+        def cut():
+            seg = log[mark[0]:]
+            mark[0] = len(log)
+            if is_rows:
+                state["odd"] += [e for e in seg if e[0] != "rows" or e[1] is None or e[2] is None or e[1] < 0]
+                return [(e[1], e[2]) for e in seg if e[0] == "rows" and e[1] is not None and e[2] is not None and e[1] >= 0]
+            if src == "parquet":
+                return [r for r in seg if r < len(groups)]      # the reader probes one index past the end
+            return list(seg)
+
+        def emit(ops, chunks=None, how=None):
+            seg = cut()
+            for o in ops[:-1]:
+                prims.append(dict(op=o, seg=[], chunks=[], how=how))
+            prims.append(dict(op=ops[-1], seg=seg, chunks=chunks, how=how))
+
+        def rows_of(chunk):
+            if src == "random":
+                return len(chunk)
+            return [rowid.get(float(x), -1) for x in chunk["ra"]]
+
+        def take(it, k_):
+            got = []
+            for _ in range(k_):
+                try:
+                    got.append(rows_of(next(it)))
+                except StopIteration:
+                    break
+            return got
+
+        def write(cache, given):
+            """the public writer, sequentially or on the simulated pool; what it stored is compared with the source"""
+            pc = pool_ctx(workers, order, pseed)
+            mw = worker_arg(workers, "arg")
+            refused = False
+            try:
+                with pc as mp:
+                    try:
+                        write_patches(cache, rd, given, overwrite=True, progress=False, max_workers=mw)
+                    except (ValueError, RuntimeError) as e:
+                        if not is_empty_patch_refusal(e, mp):
+                            raise
+                        refused = True     # only possible when records are missing: the requests tell
+            finally:
+                impl.set_threads(1)
+            state["pools"] += 1 if getattr(mp, "pool_sizes", ()) else 0
+            emit(["RdPass"], None, how="write_patches")
+            if refused:
+                state["refused"] += 1
+                state["stored_ok"] = False
+            else:
+                stored = [float(x) for rec in impl.patch_records(impl.Catalog(cache, max_workers=1)).values() for x in rec["ra"]]
+                if src == "random":
+                    state["stored_ok"] = state["stored_ok"] and len(stored) == n
+                else:
+                    state["stored_ok"] = state["stored_ok"] and sorted(stored) == sorted(float(v) for v in cols["ra"])
+            shutil.rmtree(cache, ignore_errors=True)
+
+        def probe_centres():
+            size = rng.randrange(20, n + 1) if src == "random" else rng.choice([-1, 20, 25])
+            spec.setdefault("probe_sizes", []).append(size)
+            c = create_patch_centers(rd, 2, size)
+            if src == "random":
+                probes.append((size if size >= 20 else None, cut()))
+            else:
+                emit(["RdPass"], None, how="create_patch_centers")
+            return c
+
+        def do(op):
+            kind = op[0]
+            if kind == "iter":
+                iter(rd)
+                emit(["RdIter"], [])
+            elif kind == "next":
+                emit([("RdNext", op[1])], take(rd, op[1]))
+            elif kind == "peek":
+                emit(["RdIter", ("RdNext", 1)], take(iter(rd), 1))
+            elif kind == "islice":
+                emit(["RdIter", ("RdNext", op[1])], [rows_of(c) for c in itertools.islice(rd, op[1])])
+            elif kind == "zip":          # zip draws one more chunk than it hands out
+                for _c, _i in zip(rd, range(op[1])):
+                    pass
+                emit(["RdIter", ("RdNext", op[1] + 1)], None)
+            elif kind == "abort":
+                got = []
+                for i, c in enumerate(rd):
+                    got.append(rows_of(c))
+                    if i == op[1]:
+                        break
+                emit(["RdIter", ("RdNext", op[1] + 1)], got)
+            elif kind == "pass":
+                emit(["RdPass"], [rows_of(c) for c in rd], how="for-loop")
+            elif kind == "nested":       # the reader is its own iterator: the inner loop uses up the outer one
+                extra = []
+                for i, a in enumerate(rd):
+                    if i == 0:
+                        emit(["RdIter", ("RdNext", 1)], [rows_of(a)])
+                        emit(["RdPass"], [rows_of(b) for b in rd], how="for-loop-nested")
+                    else:
+                        extra.append(rows_of(a))
+                emit([("RdNext", 1)], extra)
+            elif kind == "indicator":    # a preview through the progress display, abandoned
+                it = iter(Indicator(rd, stream=io.StringIO()))
+                got = take(it, op[1])
+                it.close()
+                emit(["RdIter", ("RdNext", op[1])], got)
+            elif kind == "len":
+                len(rd), rd.num_records, rd.num_chunks, repr(rd), rd.copy_chunk_info()
+                emit([("RdNext", 0)], [])
+            elif kind == "probe":
+                k_ = min(op[1], n)
+                rd.get_probe(k_)
+                if src == "random":
+                    probes.append((k_, cut()))
+                else:
+                    emit(["RdPass"], None, how="get_probe")
+            elif kind == "write":
+                write(impl.fresh_dir(ctx, "hcat"), centers)
+            elif kind == "create":
+                write(impl.fresh_dir(ctx, "hcat"), probe_centres())
+            else:
+                raise AssertionError(kind)
+
+        err = None
+        try:
+            for op in hist:
+                do(op)
+            if terminal == "direct":
+                do(("pass",))
+            elif terminal == "create":
+                do(("create",))
+            else:
+                write(impl.fresh_dir(ctx, "hcat"), None if name_mode else centers)
+        except Exception as e:  # noqa: BLE001 - every operation of the plan is valid on a valid source
+            err = e
+        finally:
+            try:
+                rd.__exit__(None, None, None)
+            except Exception:  # noqa: BLE001 - already closed by write_patches
+                pass
+            if path is not None and os.path.exists(path):
+                os.unlink(path)
+        partial = hist_partial_pass(n, cs, prims)
+        ctx.count(key=("history", src, n, cs, tuple(tuple(o) for o in hist), terminal, workers, tuple(groups or ())),
+                  nontrivial=partial, kind="history/%s/%s%s" % (src, terminal, "/pool" if state["pools"] else ""))
+        ctx.bump("history:%s" % ("pass_from_partial_state" if partial else "complete_or_fresh_only"))
+        for o in hist:
+            ctx.bump("history-op:%s" % o[0])
+        spec["trace"] = [dict(op=p["op"], requests=p["seg"][:12], how=p["how"]) for p in prims][:24]
+        if err is not None:
+            ctx.fail("c18-raises:%s" % type(err).__name__, "an operation of the history %s / final %s on a %s reader raised %r"
+                     % (hist, terminal, src, err), spec, case=idx)
+            idx += 1
+            continue
+        if state["odd"]:
+            if any(e[0] == "column" for e in state["odd"]):
+                ctx.fail("c18-whole-input", "the source was asked for a whole column at once: %s" % state["odd"][:3], spec, case=idx)
+            else:
+                ctx.disagree("c18-access-path-not-observable", idx, dict(spec, odd=state["odd"][:5]))
+            idx += 1
+            continue
+        # which complete pass (if any) is not a complete pass: for the message only, the verdict is Coq's
+        want = [(lo, min(lo + cs, n)) for lo in range(0, n, cs)]
+        rows_ok = state["stored_ok"]
+        bad_pass = None
+        for p in prims:
+            seg = p["seg"]
+            if is_rows:
+                clipped = [(a, min(b, n)) for a, b in seg]
+                if p["op"] == "RdPass" and clipped != want and bad_pass is None:
+                    bad_pass = (p["how"], clipped)
+                if p["chunks"] is not None:
+                    rows_ok = rows_ok and [r for c in p["chunks"] for r in c] == [r for a, b in clipped for r in range(a, b)]
+            elif src == "parquet":
+                if p["op"] == "RdPass" and seg != list(range(len(groups))) and bad_pass is None:
+                    bad_pass = (p["how"], seg)
+                if p["op"] == "RdPass" and p["chunks"] is not None:
+                    rows_ok = rows_ok and [r for c in p["chunks"] for r in c] == list(range(n))
+            else:
+                if p["op"] == "RdPass" and seg != [b - a for a, b in want] and bad_pass is None:
+                    bad_pass = (p["how"], seg)
+                if p["chunks"] is not None:
+                    rows_ok = rows_ok and list(p["chunks"]) == seg
+        probes_ok = all(seg == [k_] for k_, seg in probes if k_ is not None)
+        ops_t = rd_ops_term(prims)
+        if is_rows:
+            raw_ok = all(b - a <= cs for p in prims for a, b in p["seg"])
+            terms.append("c18_hist_case %s %s %s %s %s %s" % (
+                fq.nat(n), fq.nat(cs), ops_t,
+                fq.lst([fq.lst([fq.pair(fq.nat(a), fq.nat(min(b, n))) for a, b in p["seg"]]) for p in prims]),
+                fq.b(raw_ok), fq.b(rows_ok)))
+        elif src == "parquet":
+            terms.append("c18_pq_hist_case %s %s %s %s %s %s" % (
+                fq.nat(cs), fq.nlist(groups), ops_t, fq.lst([fq.nlist(p["seg"]) for p in prims]),
+                fq.lst([fq.opt(None if p["chunks"] is None else [len(c) for c in p["chunks"]], fq.nlist) for p in prims]),
+                fq.b(rows_ok)))
+        else:
+            terms.append("c18_hist_sizes_case %s %s %s %s %s" % (
+                fq.nat(n), fq.nat(cs), ops_t, fq.lst([fq.nlist(p["seg"]) for p in prims]), fq.b(rows_ok)))
+        metas.append((idx, dict(spec, bad_pass=bad_pass, rows_ok=rows_ok, refused=state["refused"],
+                                probes=[(k_, seg[:6]) for k_, seg in probes], probes_ok=probes_ok)))
+        if not probes_ok:
+            # RandomReader.get_probe(k) = one call of the generator for k points; no statement of C18 depends on it
+            ctx.disagree("Cases_C18:history-random-probe", idx, dict(spec, probes=probes))
+        ctx.sample(dict(spec, passes=[(p["how"], p["seg"][:8]) for p in prims if p["op"] == "RdPass"]), limit=3)
+        idx += 1
+    return idx
+
+
+def history_verdict(ctx, i, c, meta):
+    """bits: 1 requests = state machine, operation by operation; then per kind of source
+       rows / random: 2 every complete pass covers every record once in portions of 1..cs, 4 no request above cs, 8 records
+       parquet:       2 chunk lengths = model, 4 every complete pass requests every row group once in order, 8 records"""
+    pq = meta["src"] == "parquet"
+    spec_bit, size_bit = (4, 0) if pq else (2, 4)
+    if c & spec_bit:
+        how, got = meta["bad_pass"] if meta["bad_pass"] else ("pass", None)
+        ctx.fail("c18-pass-after-history:%s" % how,
+                 "after the history %s on a %s reader (%d records, chunk size %d) the complete pass made by %s requested %s "
+                 "instead of every record once from the start%s"
+                 % (meta["ops"], meta["src"], meta["n"], meta["cs"], how, got,
+                    "" if meta["rows_ok"] else "; records are missing from what was handed over / stored"), meta, case=i)
+    if size_bit and c & size_bit:
+        ctx.fail("c18-requests", "an operation on a reader with history requested more than a chunk at once (code %d)" % c, meta, case=i)
+    if c & ~(spec_bit | size_bit):
+        ctx.disagree("Cases_C18:history", i, dict(code=c, meta=meta))
+
 
 
 def run(ctx):
@@ -593,9 +1068,13 @@ def run(ctx):
             if mp.pool_sizes else "true"))
         metas.append((idx, dict(spec, effective_workers=eff_w, call_sizes=sizes, tasks=tasks[:40])))
         idx += 1
+    idx = history_cases(ctx, readers, terms, metas, idx)
     codes = ctx.shards("Cases_C18", HEADER, terms, shard=100)
     for (i, meta), c in zip(metas, codes):
         if not c:
+            continue
+        if meta.get("history"):
+            history_verdict(ctx, i, c, meta)
             continue
         if "random_pool" in meta:
             if c & 2:
